@@ -39,7 +39,7 @@ ID = "C13"
 LEVEL = "exploration"
 TECHNIQUE = "differential runtime monitoring: pyanalyze's own annotation/signature evaluators observed on the same declaration"
 RULE = (
-    "annotation case = (expression E, context); E built from 40 atoms (classes, None/Any/Never, TypeVars plain/bound/"
+    "annotation case = (expression E, context); E built from 43 atoms (classes incl. two whose names shadow builtins, None/Any/Never, TypeVars plain/bound/"
     "constrained, NewType, TypedDict class+functional, Protocol, enum/int/str/bytes/bool/None Literals, forward-reference "
     "strings) and ~75 constructors (Optional/Union/|, typing.X[...] / builtin / collections.abc / attribute spellings, all "
     "tuple forms incl. tuple[()], *tuple[..] and Unpack, type[], Callable list/ellipsis/empty, Annotated, ClassVar/Final in "
@@ -112,6 +112,11 @@ class P(Protocol):
 class PG(Protocol[T]):
     def get(self) -> T: ...
 class G(Generic[T]):
+    pass
+# module-level classes whose names shadow builtins: a name in a string annotation must resolve in the module first
+class Warning:
+    pass
+class TimeoutError(Exception):
     pass
 ANYV: Any = None
 '''
@@ -191,6 +196,8 @@ ATOMS = [
     atom('"A"', "fwdref"), atom('"int"', "fwdref"), atom("'B'", "fwdref"),
     atom('"List[A]"', "fwdref.generic"), atom('"Optional[A]"', "fwdref.Optional"), atom('"A | None"', "fwdref.bitor"),
     atom("TBF", "TypeVar.bound-fwdref"),
+    atom("Warning", "class.shadows-builtin"), atom('"Warning"', "fwdref.shadows-builtin"),
+    atom('"List[TimeoutError]"', "fwdref.generic-shadows-builtin"),
     atom(f"{PRELUDE_NAME}.A", "attribute.class"),
     atom("Literal[1]", "Literal.int"), atom("Literal['a']", "Literal.str"), atom("Literal[b'x']", "Literal.bytes"),
     atom("Literal[True]", "Literal.bool"), atom("Literal[None]", "Literal.None"), atom("Literal[Color.RED]", "Literal.enum"),
